@@ -93,7 +93,7 @@ Definition ex_db : db :=
      cs := [ {| c_id := 4; c_pid := Some 1%Z; c_y := Some 1%Z; c_kind := 0 |};
              {| c_id := 5; c_pid := Some 1%Z; c_y := Some 1%Z; c_kind := 1 |};
              {| c_id := 6; c_pid := Some 2%Z; c_y := None; c_kind := 1 |};
-             {| c_id := 9; c_pid := None; c_y := Some 1%Z; c_kind := 1 |} ] |}.
+             {| c_id := 9; c_pid := None; c_y := Some 1%Z; c_kind := 1 |} ]; ns := [] |}.
 
 (* outer join to of_type(Sub): parent 3 (no children) and nobody else gets the None entity; parent 1 twice
    would be the same object *)
